@@ -40,7 +40,7 @@ Section OneQueryWide.
     | None => ASkip
     | Some ps =>
       let w := mws_of_wide ps in
-      match ws_file w f, request_name_wide (strs_of ps f) (bytes_of files f) line0 col true with
+      match ws_file w f, request_name_wide (strs_of ps f) (bytes_of files f) line0 col false with
       | Some fi, Some (Some (g, s)) =>
         match define_at_wide g w f fi s (zl line0) (Z.of_N col) with Some l => ALocs l | None => ASkip end
       | Some _, Some None => ALocs []
@@ -53,7 +53,7 @@ Section OneQueryWide.
     | None => ASkip
     | Some ps =>
       let w := mws_of_wide ps in
-      match ws_file w f, request_name_wide (strs_of ps f) (bytes_of files f) line0 col true with
+      match ws_file w f, request_name_wide (strs_of ps f) (bytes_of files f) line0 col false with
       | Some fi, Some (Some (g, s)) =>
         match references_at_wide mode g w f fi s (zl line0) (Z.of_N col) with Some l => ALocs l | None => ASkip end
       | Some _, Some None => ALocs []
@@ -191,9 +191,9 @@ Proof.
   intros files f line0 col Hf Ht. unfold run_define_wide, run_define, all_in_fragment in *.
   destruct (parse_all files) as [ps|]; [|exact I]. rewrite (mws_of_wide_narrow ps Hf).
   destruct (ws_file (mws_of ps) f) as [fi|]; [|exact I].
-  pose proof (request_name_link (strs_of ps f) (bytes_of files f) line0 col true (bytes_of_text_ok files f Ht)) as HL.
-  destruct (request_name_wide (strs_of ps f) (bytes_of files f) line0 col true) as [[[g s]|]|];
-    destruct (request_name (bytes_of files f) line0 col true) as [[s'|]|]; try exact I; try contradiction.
+  pose proof (request_name_link (strs_of ps f) (bytes_of files f) line0 col false (bytes_of_text_ok files f Ht)) as HL.
+  destruct (request_name_wide (strs_of ps f) (bytes_of files f) line0 col false) as [[[g s]|]|];
+    destruct (request_name (bytes_of files f) line0 col false) as [[s'|]|]; try exact I; try contradiction.
   - destruct HL as [-> ->]. rewrite define_at_wide_narrow.
     destruct (define_at (mws_of ps) f fi s' (zl line0) (Z.of_N col)); [reflexivity | exact I].
   - destruct (define_at_wide g (mws_of ps) f fi s (zl line0) (Z.of_N col)); exact I.
@@ -207,9 +207,9 @@ Proof.
   intros files mode f line0 col Hf Ht. unfold run_refs_wide, run_refs, all_in_fragment in *.
   destruct (parse_all files) as [ps|]; [|exact I]. rewrite (mws_of_wide_narrow ps Hf).
   destruct (ws_file (mws_of ps) f) as [fi|]; [|exact I].
-  pose proof (request_name_link (strs_of ps f) (bytes_of files f) line0 col true (bytes_of_text_ok files f Ht)) as HL.
-  destruct (request_name_wide (strs_of ps f) (bytes_of files f) line0 col true) as [[[g s]|]|];
-    destruct (request_name (bytes_of files f) line0 col true) as [[s'|]|]; try exact I; try contradiction.
+  pose proof (request_name_link (strs_of ps f) (bytes_of files f) line0 col false (bytes_of_text_ok files f Ht)) as HL.
+  destruct (request_name_wide (strs_of ps f) (bytes_of files f) line0 col false) as [[[g s]|]|];
+    destruct (request_name (bytes_of files f) line0 col false) as [[s'|]|]; try exact I; try contradiction.
   - destruct HL as [-> ->]. rewrite references_at_wide_narrow.
     destruct (references_at mode (mws_of ps) f fi s' (zl line0) (Z.of_N col)); [reflexivity | exact I].
   - destruct (references_at_wide mode g (mws_of ps) f fi s (zl line0) (Z.of_N col)); exact I.
